@@ -182,7 +182,10 @@ struct Occ {
     const std::vector<size_t> &cstr(bool ci) const { return c_same ? n[ci] : c[ci]; }
 };
 
-std::string check_long_mode(const SearchCase &k, const Forms &f, const Occ &o, bool ci) {
+// rot == ALL_FORMS: every overload; otherwise a rotating selection (two of the five needle forms for find(start,..) and
+// find_last(limit,..), one each for the forms without position and for contains) - used for haystacks of tens of KB
+enum : unsigned { ALL_FORMS = ~0u };
+std::string check_long_mode(const SearchCase &k, const Forms &f, const Occ &o, bool ci, unsigned rot) {
     const std::string &H = k.hay, &N = k.needle, &C = f.cview;
     const ST::case_sensitivity_t cs = ci ? ST::case_insensitive : ST::case_sensitive;
     const size_t st = k.start, lim = k.limit, n = N.size(), hz = H.size();
@@ -191,31 +194,42 @@ std::string check_long_mode(const SearchCase &k, const Forms &f, const Occ &o, b
     const ll ml = ref::find_last_in(o.full(ci), hz, n, lim), mla = ref::find_last_in(o.full(ci), hz, n, (size_t)-1);
     const ll cf = ref::find_in(o.cstr(ci), hz, st), cf0 = ref::find_in(o.cstr(ci), hz, 0);
     const ll cl = ref::find_last_in(o.cstr(ci), hz, C.size(), lim), cla = ref::find_last_in(o.cstr(ci), hz, C.size(), (size_t)-1);
+    auto on = [rot](unsigned group, unsigned idx, unsigned take) {
+        if (rot == ALL_FORMS) return true;
+        for (unsigned t = 0; t < take; t++) if ((rot + 2 * t) % group == idx) return true;
+        return false;
+    };
+    const unsigned r2 = rot == ALL_FORMS ? rot : rot / 5;      // a second, independent rotation for the limit group
 
-    WANT(hs.find(st, f.ns, cs), mf, "find(start, ST::string)");
-    WANT(hs.find(f.ns, cs), mf0, "find(ST::string)");
-    WANT(hs.find_last(lim, f.ns, cs), ml, "find_last(limit, ST::string)");
-    WANT(hs.find_last(f.ns, cs), mla, "find_last(ST::string)");
-    WANT(hs.contains(f.ns, cs), mf0 >= 0, "contains(ST::string)");
+    if (on(5, 0, 2)) WANT(hs.find(st, f.ns, cs), mf, "find(start, ST::string)");
+    if (on(5, 1, 2)) WANT(hs.find(st, f.plp, n, cs), mf, "find(start, ptr, len)");
+    if (on(5, 2, 2)) WANT(hs.find(st, f.pl8, n, cs), mf, "find(start, const char8_t*, len)");
+    if (on(5, 3, 2)) WANT(hs.find(st, f.czp, cs), cf, "find(start, const char*)");
+    if (on(5, 4, 2)) WANT(hs.find(st, f.cz8, cs), cf, "find(start, const char8_t*)");
+    auto onl = [r2](unsigned group, unsigned idx, unsigned take) {
+        if (r2 == ALL_FORMS) return true;
+        for (unsigned t = 0; t < take; t++) if ((r2 + 2 * t) % group == idx) return true;
+        return false;
+    };
+    if (onl(5, 0, 2)) WANT(hs.find_last(lim, f.ns, cs), ml, "find_last(limit, ST::string)");
+    if (onl(5, 1, 2)) WANT(hs.find_last(lim, f.plp, n, cs), ml, "find_last(limit, ptr, len)");
+    if (onl(5, 2, 2)) WANT(hs.find_last(lim, f.pl8, n, cs), ml, "find_last(limit, const char8_t*, len)");
+    if (onl(5, 3, 2)) WANT(hs.find_last(lim, f.czp, cs), cl, "find_last(limit, const char*)");
+    if (onl(5, 4, 2)) WANT(hs.find_last(lim, f.cz8, cs), cl, "find_last(limit, const char8_t*)");
+    if (on(3, 0, 1)) WANT(hs.find(f.ns, cs), mf0, "find(ST::string)");
+    if (on(3, 1, 1)) WANT(hs.find(f.plp, n, cs), mf0, "find(ptr, len)");
+    if (on(3, 2, 1)) WANT(hs.find(f.czp, cs), cf0, "find(const char*)");
+    if (onl(3, 0, 1)) WANT(hs.find_last(f.ns, cs), mla, "find_last(ST::string)");
+    if (onl(3, 1, 1)) WANT(hs.find_last(f.plp, n, cs), mla, "find_last(ptr, len)");
+    if (onl(3, 2, 1)) WANT(hs.find_last(f.czp, cs), cla, "find_last(const char*)");
+    if (on(4, 0, 1)) WANT(hs.contains(f.ns, cs), mf0 >= 0, "contains(ST::string)");
+    if (on(4, 1, 1)) WANT(hs.contains(f.plp, n, cs), mf0 >= 0, "contains(ptr, len)");
+    if (on(4, 2, 1)) WANT(hs.contains(f.pl8, n, cs), mf0 >= 0, "contains(const char8_t*, len)");
+    if (on(4, 3, 1)) WANT(hs.contains(f.czp, cs), cf0 >= 0, "contains(const char*)");
     WANT(hs.starts_with(f.ns, cs), ref::starts_with(H, N, ci), "starts_with(ST::string)");
     WANT(hs.ends_with(f.ns, cs), ref::ends_with(H, N, ci), "ends_with(ST::string)");
-    WANT(hs.find(st, f.plp, n, cs), mf, "find(start, ptr, len)");
-    WANT(hs.find(f.plp, n, cs), mf0, "find(ptr, len)");
-    WANT(hs.find_last(lim, f.plp, n, cs), ml, "find_last(limit, ptr, len)");
-    WANT(hs.find_last(f.plp, n, cs), mla, "find_last(ptr, len)");
-    WANT(hs.contains(f.plp, n, cs), mf0 >= 0, "contains(ptr, len)");
-    WANT(hs.find(st, f.pl8, n, cs), mf, "find(start, const char8_t*, len)");
-    WANT(hs.find_last(lim, f.pl8, n, cs), ml, "find_last(limit, const char8_t*, len)");
-    WANT(hs.contains(f.pl8, n, cs), mf0 >= 0, "contains(const char8_t*, len)");
-    WANT(hs.find(st, f.czp, cs), cf, "find(start, const char*)");
-    WANT(hs.find(f.czp, cs), cf0, "find(const char*)");
-    WANT(hs.find_last(lim, f.czp, cs), cl, "find_last(limit, const char*)");
-    WANT(hs.find_last(f.czp, cs), cla, "find_last(const char*)");
-    WANT(hs.contains(f.czp, cs), cf0 >= 0, "contains(const char*)");
     WANT(hs.starts_with(f.czp, cs), ref::starts_with(H, C, ci), "starts_with(const char*)");
     WANT(hs.ends_with(f.czp, cs), ref::ends_with(H, C, ci), "ends_with(const char*)");
-    WANT(hs.find(st, f.cz8, cs), cf, "find(start, const char8_t*)");
-    WANT(hs.find_last(lim, f.cz8, cs), cl, "find_last(limit, const char8_t*)");
     WANT(hs.starts_with(f.cz8, cs), ref::starts_with(H, C, ci), "starts_with(const char8_t*)");
     WANT(hs.ends_with(f.cz8, cs), ref::ends_with(H, C, ci), "ends_with(const char8_t*)");
     if (n == 1) {
@@ -223,7 +237,7 @@ std::string check_long_mode(const SearchCase &k, const Forms &f, const Occ &o, b
         WANT(hs.find_last(lim, N[0], cs), ml, "find_last(limit, char)");
         WANT(hs.contains(N[0], cs), mf0 >= 0, "contains(char)");
     }
-    if (!ci) {
+    if (!ci && rot == ALL_FORMS) {
         WANT(hs.find(st, f.ns), mf, "find(start, ST::string) default mode");
         WANT(hs.find_last(lim, f.ns), ml, "find_last(limit, ST::string) default mode");
         WANT(hs.contains(f.ns), mf0 >= 0, "contains(ST::string) default mode");
@@ -250,9 +264,11 @@ std::string check_long_positions(const SearchCase &k, const Forms &f, const Occ 
     return std::string();
 }
 std::string check_long_case(const SearchCase &k, const Forms &f, const Occ &o, bool positions_only = false) {
+    // haystacks above 8 KB run a rotating selection of the overloads (a function of the case), everything else all of them
+    const unsigned rot = k.hay.size() > 8192 ? (unsigned)((k.hay.size() + 7 * k.needle.size() + 3 * k.start + k.limit + (unsigned char)k.needle[k.needle.size() / 2]) % 30) : ALL_FORMS;
     try {
-        std::string why = positions_only ? check_long_positions(k, f, o, false) : check_long_mode(k, f, o, false);
-        if (why.empty()) why = positions_only ? check_long_positions(k, f, o, true) : check_long_mode(k, f, o, true);
+        std::string why = positions_only ? check_long_positions(k, f, o, false) : check_long_mode(k, f, o, false, rot);
+        if (why.empty()) why = positions_only ? check_long_positions(k, f, o, true) : check_long_mode(k, f, o, true, rot);
         return why;
     } catch (...) {
         return "unexpected " + verif::describe_current_exception();
@@ -390,8 +406,7 @@ void gen_long(verif::Reader &r, bool big, SearchCase &k, Case &c) {
     else { static const uint16_t HS[] = {64, 255, 256, 257, 1023, 1024, 1025, 2048, 4095, 4096, 4097, 8191, 8192, 100, 500, 3000}; H = r.chance(64) ? (size_t)r.range(41, 8192) : (size_t)r.pick(HS); }
     const size_t P = 1 + r.idx(8);
     uint8_t pat[8];
-    for (size_t i = 0; i < P; i++) pat[i] = r.pick(LB) ^ 0;
-    if (P == 1 && pat[0] == 'a' && false) {}
+    for (size_t i = 0; i < P; i++) pat[i] = r.pick(LB);
     size_t nl;
     if (big) { static const uint16_t NB[] = {2, 3, 4, 5, 8, 17, 33, 64, 257, 1025}; nl = r.chance(64) ? (size_t)r.range(2, 64) : (size_t)r.pick(NB); }
     else { static const uint16_t NS[] = {17, 31, 32, 33, 63, 64, 65, 127, 128, 255, 256, 257, 511, 512, 1023, 1024, 1025, 1500, 2047, 2048, 3000, 2, 3, 5}; nl = r.chance(64) ? (size_t)r.range(17, 3000) : (size_t)r.pick(NS); }
@@ -415,7 +430,7 @@ void gen_long(verif::Reader &r, bool big, SearchCase &k, Case &c) {
             else bp = bsel < 3 ? (bsel < nl ? bsel : 0) : r.idx(nl < 16 ? nl : 16);
             N[bp] = (char)r.pick(BR);
             // every period-aligned position costs about bp comparisons: keep the product bounded (a resource bound, not a verdict)
-            while (H > nl + 64 && (H - nl) / P * (bp + 1) > 400000) H = nl + (H - nl) / 2;
+            while (H > nl + 64 && (H - nl) / P * (bp + 1) > (big ? 150000u : 400000u)) H = nl + (H - nl) / 2;
         }
     }
     std::string Hs(H, 'a');
@@ -494,10 +509,55 @@ size_t pick_position(unsigned sel, unsigned v, size_t size, ll anchor, size_t nl
 
 }  // namespace
 
+namespace {
+int run_long(verif::Reader &r, Case &c, uint8_t mode) {
+    SearchCase k;
+    if (mode == 0xFD) {
+        size_t hl = r.u8(); hl |= (size_t)r.u8() << 8; hl |= (size_t)r.u8() << 16;
+        size_t nl = r.u8(); nl |= (size_t)r.u8() << 8;
+        if (hl > LONG_MAX_HAY) hl = LONG_MAX_HAY;
+        if (nl > LONG_MAX_NEEDLE) nl = LONG_MAX_NEEDLE;
+        k.null_needle = (r.u8() & 1) != 0;
+        k.start = (size_t)r.bits64(); k.limit = (size_t)r.bits64();
+        // explicit content only: the lengths are cut to the bytes that are really there (a short input does not turn into 64 KB of zeros)
+        const size_t avail = r.pos < r.n ? r.n - r.pos : 0;
+        if (hl > avail) hl = avail;
+        if (nl > avail - hl) nl = avail - hl;
+        k.hay.resize(hl); k.needle.resize(nl);
+        for (size_t i = 0; i < hl; i++) k.hay[i] = (char)r.u8();
+        for (size_t i = 0; i < nl; i++) k.needle[i] = (char)r.u8();
+        if (!k.needle.empty()) k.null_needle = false;
+        c.label("directed");
+    } else {
+        gen_long(r, mode != 0xFE, k, c);
+    }
+    Forms f(k);
+    Occ o(k, f.cview);
+    const LongWhy w = classify_long(k, o);
+    c.nontrivial = w.any();
+    if (k.needle.size() >= 1024) c.label("long:needle>=1024"); else if (k.needle.size() >= 17) c.label("long:needle-17..1023");
+    if (w.at_end) c.label("long:occurrence-exactly-at-end");
+    if (w.limit_deep) c.label("long:limit>1024-bytes-into-an-occurrence"); else if (w.limit_inside) c.label("long:limit-inside-an-occurrence");
+    if (w.edge) c.label("long:occurrence-straddles-4096/16384/16386-edge(from-start-or-end)");
+    if (w.multi) c.label("nt:occurs>=2");
+    if (w.overlap) c.label("nt:overlapping-occurrences");
+    if (w.false_start) c.label("nt:first-byte-hit-fails-later");
+    if (w.straddle_start || w.straddle_limit) c.label("nt:occurrence-straddles-start/limit");
+    if (w.past_end) c.label("nt:prefix-runs-past-end");
+    if (!o.full(true).empty() && ref::find_in(o.full(false), k.hay.size(), k.start) != ref::find_in(o.full(true), k.hay.size(), k.start)) c.label("ci-answer-differs");
+    if (c.want_text) c.text = render_long(k, o);
+    std::string why = check_long_case(k, f, o);
+    if (!why.empty()) return c.fail(why);
+    return verif::CASE_OK;
+}
+}  // namespace
+
 int verif_case(const uint8_t *data, size_t size, Case &c) {
     verif::Reader r(data, size, c);
     SearchCase k;
     uint8_t mode = r.u8();
+    // FE: generated long haystack (41..8192 bytes); F9..FC: generated big haystack (8..48 KB); FD: directed long (explicit content)
+    if (mode >= 0xF9 && mode <= 0xFE) return run_long(r, c, mode);
     if (mode == 0xFF) {
         size_t hl = r.u8(), nl = r.u8();
         k.null_needle = (r.u8() & 1) != 0;
@@ -509,7 +569,7 @@ int verif_case(const uint8_t *data, size_t size, Case &c) {
     } else {
         // structural choices first, content afterwards
         gen::Plan hp = gen::plan(r, 40, 2);
-        unsigned nm = (unsigned)r.range(0, 11);
+        unsigned nm = (unsigned)r.range(0, 13);
         unsigned np1 = r.u8(), np2 = r.u8();
         unsigned ssel = (unsigned)r.range(0, 7), sv = r.u8();
         unsigned lsel = (unsigned)r.range(0, 7), lv = r.u8();
@@ -535,6 +595,21 @@ int verif_case(const uint8_t *data, size_t size, Case &c) {
             case 8: k.null_needle = true; break;                                          // null
             case 9: { k.needle = cut(4); if (!k.needle.empty()) { std::string alt; gen::append_sym(r, alt, 1, ht.alpha); k.needle[k.needle.size() - 1] = alt[0]; } break; }
             case 10: k.needle = cut(8); break;
+            case 12: {   // a lone lead byte, or the head of a multi-byte character of the haystack cut short: not well-formed UTF-8 on its own
+                size_t p = hs ? np1 % hs : 0, tries = 0;
+                while (tries < hs && (unsigned char)H[p] < 0xC0) { p = (p + 1) % hs; tries++; }
+                if (hs && (unsigned char)H[p] >= 0xC0) {
+                    const unsigned char lead = (unsigned char)H[p];
+                    const size_t full = lead >= 0xF0 ? 4 : lead >= 0xE0 ? 3 : 2;
+                    k.needle = H.substr(p, 1 + np2 % (full - 1));
+                } else k.needle = std::string(1, "\xC3\xE2\xF0"[np2 % 3]);
+                break; }
+            case 13: {   // the tail of a multi-byte character (continuation bytes first), optionally with what follows it
+                size_t p = hs ? np1 % hs : 0, tries = 0;
+                while (tries < hs && ((unsigned char)H[p] & 0xC0) != 0x80) { p = (p + 1) % hs; tries++; }
+                if (hs && ((unsigned char)H[p] & 0xC0) == 0x80) k.needle = H.substr(p, 1 + np2 % 3);
+                else k.needle = "\xA9";
+                break; }
             default: k.needle = std::string(1, (char)r.u8()); break;                     // one arbitrary byte: char form
         }
         if (np2 & 0x80 && !k.needle.empty() && nm != 1) k.needle = gen::flip_case(k.needle, np1 | 0x100u);
@@ -548,6 +623,8 @@ int verif_case(const uint8_t *data, size_t size, Case &c) {
         c.label(k.null_needle ? "needle:null" : k.needle.empty() ? "needle:empty" : k.needle.size() == 1 ? "needle:1-byte(char form)" : "needle:2+bytes");
         if (!k.needle.empty() && k.needle == H) c.label("needle:whole-haystack"); else if (k.needle.size() > hs) c.label("needle:longer-than-haystack");
         if (gen::has_nul(k.needle)) c.label("needle:has-NUL");
+        if (!k.needle.empty() && !ref::utf8_structurally_valid(k.needle)) c.label("needle:not-well-formed-UTF-8-on-its-own");
+        if ((gen::has_nul(H) || gen::has_nul(k.needle)) && k.start > 0 && k.start < hs) c.label("NUL-and-start-inside");
     }
     Why w = classify(k);
     c.nontrivial = w.any();
@@ -606,6 +683,106 @@ long verif_enumerate(int shard, int nshards, int tier, verif::EnumReport &r) {
                 }
             }
         }
+    }
+    // ---- long haystacks: every offset of start / limit inside an occurrence ---------------------------------------------------------
+    {
+        static const uint16_t NLT[] = {17, 31, 32, 33, 63, 64, 65, 127, 128, 129, 255, 256, 257, 511, 512, 513, 1023, 1024, 1025, 1500, 2047, 2048, 2049, 3000};
+        int cfg = 0;
+        for (uint16_t nl16 : NLT) for (int layout = 0; layout < 3; layout++) {
+            const size_t nl = nl16;
+            if (layout == 2 && nl > 1025) continue;
+            if ((cfg++ % nshards) != shard) continue;
+            SearchCase k;
+            size_t first, last;
+            if (layout < 2) {
+                // sparse: background with NUL / multi-byte text, a foreign needle planted twice - the second one exactly at the end -
+                // (layout 1: the needle has a NUL at index 5, so the C string forms look for its 5-byte head, and a case-flipped third copy)
+                static const char BG0[] = {'a', 'b', '\0', 'A', 'c'}, BG1[] = {'a', '\xC3', '\xA9', 'b', 'x', '\xE2', '\x82'};
+                static const char ND0[] = {'x', 'Y', 'z', 'W', '#', 'q', 'X'}, ND1[] = {'x', '\xE2', '\x82', '\xAC', 'Y', '\0', 'w', 'Q', 'x'};
+                const size_t H = 2 * nl + 337 + (layout ? nl + 40 : 0);
+                k.hay.resize(H); k.needle.resize(nl);
+                for (size_t i = 0; i < H; i++) k.hay[i] = layout ? BG1[i % sizeof BG1] : BG0[i % sizeof BG0];
+                for (size_t i = 0; i < nl; i++) k.needle[i] = layout ? ND1[i % sizeof ND1] : ND0[i % sizeof ND0];
+                first = layout ? 7 : 100; last = H - nl;
+                k.hay.replace(first, nl, k.needle); k.hay.replace(last, nl, k.needle);
+                if (layout) k.hay.replace(first + nl + 20, nl, gen::flip_case(k.needle, 0x5A5A5A5Bu));
+            } else {
+                // dense partial matches: the needle is a chunk of the periodic background with a foreign last byte, so every
+                // period-aligned position before the real occurrence matches up to the last byte and overlaps the real one
+                static const char BG2[] = {'a', 'b', 'A', 'c'};
+                const size_t H = nl + 4 * 64;                       // the last position is period-aligned
+                k.hay.resize(H); k.needle.resize(nl);
+                for (size_t i = 0; i < H; i++) k.hay[i] = BG2[i % 4];
+                for (size_t i = 0; i < nl; i++) k.needle[i] = BG2[i % 4];
+                k.needle[nl - 1] = 'Q';
+                first = 8; last = H - nl;
+                k.hay[first + nl - 1] = 'q';                       // found by the case-insensitive search only
+                k.hay[last + nl - 1] = 'Q';
+            }
+            Forms f(k);
+            Occ o(k, f.cview);
+            cur = encode_long(k);
+            for (size_t off = 0; off <= nl + 1; off++) {
+                if (layout == 2 && !(off <= 40 || off + 40 >= nl || (off >= 1016 && off <= 1032) || off % 97 == 0)) continue;
+                k.limit = last + off;                              // 0 < off < nl: the limit cuts the last occurrence at this offset
+                k.start = first + off;                             // off > 0: the start lies this far inside the first occurrence
+                patch_positions(cur, k.start, k.limit); verif::set_current(cur.data(), cur.size());
+                r.evaluations++; r.nontrivial++;
+                std::string why = check_long_case(k, f, o, off != nl / 2);      // one offset per haystack runs every overload
+                if (!why.empty()) {
+                    if (r.failure.empty()) { r.failure = why; r.failing_case = render_long(k, o); r.failing_bytes = cur; }
+                    return r.evaluations;
+                }
+                if (shard == 1 && r.samples.size() < 2 && off == 1030 && nl >= 1500) r.samples.push_back(render_long(k, o));
+            }
+        }
+        if (shard == 0) r.exhausted.push_back("needles of 17..3000 bytes (incl. 63/64/65, 255/256/257, 1023/1024/1025, 2047/2048/2049) in haystacks of 2-3 needle lengths, last occurrence exactly at the end: start = first occurrence + off and "
+                                              "limit = last occurrence + off for EVERY off in 0..len+1 (sparse layouts, with NUL in haystack or needle and a case-flipped copy); dense layout (partial matches at every period overlapping the real match, "
+                                              "needles <= 1025): off in 0..40, 1016..1032, len-40..len+1 and every 97th; find/find_last through ST::string, (ptr,len), const char*, const char8_t* (+len), both case modes");
+    }
+    // ---- haystacks of tens of KB: the only / the last occurrence straddling the edge of a 4096 / 16384 / 16386-byte block ----------------
+    {
+        struct Nd { const char *b; size_t n; };
+        static const Nd ND[] = {{"\xC3\xA9", 2}, {"\xE2\x82\xAC", 3}, {"\xF0\x9F\x98\x80", 4}, {"Qx", 2}, {"needle-of-17-byteZ", 18}};
+        // the background holds a near miss of every needle (same head, other last byte) and nothing else of them
+        static const char BG[] = "a\xC3\xA8 \xE2\x82\xAB.\xF0\x9F\x98\x81Qy needle-of-17-bytez,q";
+        static const size_t HS[] = {49152, 40001};
+        static const size_t MS[] = {1, 2, 5};
+        int cfg = 0;
+        for (size_t H : HS) for (uint32_t B : EDGES) for (int from_end = 0; from_end < 2; from_end++) for (size_t m : MS) for (const Nd &nd : ND) for (int early = 0; early < 2; early++) {
+            if (m * B >= H) continue;
+            if ((cfg++ % nshards) != shard) continue;
+            const size_t e = from_end ? H - m * B : m * B, nl = nd.n;
+            SearchCase k;
+            k.needle.assign(nd.b, nl);
+            std::string base(H, 'a');
+            for (size_t i = 0; i < H; i++) base[i] = BG[i % (sizeof BG - 1)];
+            if (early) base.replace(5, nl, gen::flip_case(k.needle, 2) == k.needle ? k.needle : gen::flip_case(k.needle, 2));   // an early occurrence (case-flipped where the needle has letters)
+            for (size_t sft = 0; sft <= nl; sft++) {              // sft bytes of the occurrence lie before the edge: 0 = starts at it, nl = ends at it
+                if (e < sft || e - sft + nl > H) continue;
+                const size_t at = e - sft;
+                k.hay = base;
+                k.hay.replace(at, nl, k.needle);
+                Forms f(k);
+                Occ o(k, f.cview);
+                cur = encode_long(k);
+                const size_t starts[] = {0, at, at + 1, at ? at - 1 : 0}, limits[] = {(size_t)-1, at + nl, at + nl - 1, at + nl + 1};
+                for (int q = 0; q < 4; q++) {
+                    k.start = starts[q]; k.limit = limits[q];
+                    patch_positions(cur, k.start, k.limit); verif::set_current(cur.data(), cur.size());
+                    r.evaluations++; r.nontrivial++;
+                    std::string why = check_long_case(k, f, o, q != 0);
+                    if (!why.empty()) {
+                        if (r.failure.empty()) { r.failure = why; r.failing_case = render_long(k, o); r.failing_bytes = cur; }
+                        return r.evaluations;
+                    }
+                }
+                if (shard == 2 && r.samples.size() < 2 && sft == 1 && B == 16386 && from_end) r.samples.push_back(render_long(k, o));
+            }
+        }
+        if (shard == 0) r.exhausted.push_back("haystacks of 49152 and 40001 bytes (near misses of the needle throughout): a 2/3/4-byte UTF-8 character, \"Qx\" and an 18-byte needle whose only (or last, after an early case-flipped one) occurrence has "
+                                              "0..len of its bytes before the edge of block 1, 2 or 5 of 4096 / 16384 / 16386 bytes counted from the start and from the END; find / find_last / contains with and without start/limit "
+                                              "(start at, 1 before, 1 after the occurrence; limit exactly at, 1 short of, 1 past its end), both case modes");
     }
     if (shard == 0) {
         r.exhausted.push_back("every haystack of length <= 6 over {a,b,A} (1093) x every needle of length 1..3 over {a,b,A} (39) x start=limit in 0..len+1 and SIZE_MAX, both case modes, all needle forms");
